@@ -113,6 +113,23 @@ def handleFile (l : Line) : IO Unit := do
   IO.println s!"spec {id} filt={join sfilt}"
 
 
+/-- `comb=<op>-<w>-<order>`: the `.unit` term's verdict `u` for one measurement combined with a
+whole-result term W (name: the result is named Keep; goosT: true; goosF: false). -/
+def combine (comb : String) (name : Bytes) (u : Bool) : Bool :=
+  match comb.splitOn "-" with
+  | [op, w, _] =>
+    let wv := match w with
+      | "name" => name == Bytes.ofString "Keep"
+      | "goosT" => true
+      | _ => false
+    match op with
+    | "or" => wv || u
+    | "nor" => !(wv || u)
+    | "and" => wv && u
+    | "nand" => !(wv && u)
+    | _ => u
+  | _ => u
+
 /-- a result line of a history: name and measurements as written -/
 structure HLine where
   name : Bytes
@@ -137,6 +154,7 @@ def handleHist (l : Line) : IO Unit := do
   let id := l.id
   let files : List (List HLine) := ((l.getD "files").splitOn "|").map fun f => (f.splitOn ";").map parseHLine
   let fk := l.getD "fk"
+  let comb := l.getD "comb" "none"
   let pat := unhex (l.getD "pat")
   let sName : Bytes := Bytes.ofString "Keep"
   -- regexp terms built from a literal: ^lit, ^lit$, lit, lit$ decided on one spelling
@@ -151,6 +169,7 @@ def handleHist (l : Line) : IO Unit := do
   let isNre := fk.startsWith "nre-"
   -- model
   let keepModel (ln : HLine) (v : Value) : Bool :=
+    combine comb ln.name <|
     if isRe then unitMatch litMatch v
     else if isNre then !unitMatch litMatch v
     else match fk with
@@ -181,7 +200,7 @@ def handleHist (l : Line) : IO Unit := do
     String.ofList (ln.ms.map fun (_, u) =>
       let hit := if isRe || isNre then litMatch u || litMatch (Spec.Tidy.tidyUnit u).1
                  else pat == u || pat == (Spec.Tidy.tidyUnit u).1
-      let k := if isRe then hit else if isNre then !hit else match fk with
+      let k := combine comb ln.name <| if isRe then hit else if isNre then !hit else match fk with
         | "u" => hit
         | "nu" => !hit
         | "name" => ln.name == sName
@@ -195,6 +214,7 @@ def handleKeep (l : Line) : IO Unit := do
   let id := l.id
   let lines : List HLine := ((l.getD "files").splitOn ";").map parseHLine
   let fk := l.getD "fk"
+  let comb := l.getD "comb" "none"
   let pat := unhex (l.getD "pat")
   let conc := l.getD "conc" == "1"
   let sName : Bytes := Bytes.ofString "Keep"
@@ -208,6 +228,7 @@ def handleKeep (l : Line) : IO Unit := do
   let isRe := fk.startsWith "re-"
   let isNre := fk.startsWith "nre-"
   let keepModel (ln : HLine) (v : Value) : Bool :=
+    combine comb ln.name <|
     if isRe then unitMatch litMatch v
     else if isNre then !unitMatch litMatch v
     else match fk with
@@ -218,7 +239,7 @@ def handleKeep (l : Line) : IO Unit := do
   let keepSpec (ln : HLine) (u : Bytes) : Bool :=
     let hit := if isRe || isNre then litMatch u || litMatch (Spec.Tidy.tidyUnit u).1
                else pat == u || pat == (Spec.Tidy.tidyUnit u).1
-    if isRe then hit else if isNre then !hit else match fk with
+    combine comb ln.name <| if isRe then hit else if isNre then !hit else match fk with
       | "u" => hit
       | "nu" => !hit
       | "name" => ln.name == sName
